@@ -15,7 +15,7 @@ pub fn prop() -> Prop {
     Prop {
         id: "C06",
         level: "exploration",
-        rule: "complete cross products: integer boundary lattice (0, ±1, ±2, ±7, ±2^k, ±(2^k±1), k<=60, both range ends, two seed-rotated values) squared x 11 operators x 4 syntactic forms (literal op literal; variable op literal, literal op variable and variable op variable inside a function; the fused opcodes are selected by the middle two); 66 ordinary integers (round decimals, values between 2^31 and 2^32, factors around the square root of the range limit) squared x 11 operators x 4 forms, and against every float in both orders; three-operand chains `x op1 c1 op2 c2` and `c1 op1 x op2 c2` (13 x incl. the range ends, 15 constants squared, 5 x 5 arithmetic operators; x a local and a global); 26 float values squared x 11 operators; 110 neighbouring floats (values 0, 1 and 2 units in the last place around 11 magnitudes, both signs) squared x 6 comparisons x 2 forms, and arithmetic results against the literal next to them; all string pairs of length <=2 over {a,b,é,😀} x 6 comparisons; strings of 3..33 characters (around the machine-word sizes) that differ at one position, at two positions in opposite directions (every pair of positions), by a wide character, or by being a prefix, x 6 comparisons x 2 forms; all 7x7 type pairs x 13 operators; !(x op y) for every float pair and every type pair x 6 comparisons; order axioms over all triples of 40-value subsets read through the interpreter. A case is one program; it is non-trivial if it parsed back to the generated tree and the reference model defines its outcome (not Ux); distinct = distinct program texts",
+        rule: "complete cross products: integer boundary lattice (0, ±1, ±2, ±7, ±2^k, ±(2^k±1), k<=60, both range ends, two seed-rotated values) squared x 11 operators x 4 syntactic forms (literal op literal; variable op literal, literal op variable and variable op variable inside a function; the fused opcodes are selected by the middle two); 66 ordinary integers (round decimals, values between 2^31 and 2^32, factors around the square root of the range limit) squared x 11 operators x 4 forms, and against every float in both orders; three-operand chains `x op1 c1 op2 c2` and `c1 op1 x op2 c2` (13 x incl. the range ends, 15 constants squared, 5 x 5 arithmetic operators; x a local and a global); the same chains over 15 x 14² floats and 4 x 4 operators (nothing may be regrouped); 26 float values squared x 11 operators; 110 neighbouring floats (values 0, 1 and 2 units in the last place around 11 magnitudes, both signs) squared x 6 comparisons x 2 forms, and arithmetic results against the literal next to them; all string pairs of length <=2 over {a,b,é,😀} x 6 comparisons; strings of 3..33 characters (around the machine-word sizes) that differ at one position, at two positions in opposite directions (every pair of positions), by a wide character, or by being a prefix, x 6 comparisons x 2 forms; all 7x7 type pairs x 13 operators; !(x op y) for every float pair and every type pair x 6 comparisons; order axioms over all triples of 40-value subsets read through the interpreter. A case is one program; it is non-trivial if it parsed back to the generated tree and the reference model defines its outcome (not Ux); distinct = distinct program texts",
         assumptions: &[
             "the reference model's operator table (refint::infix: i64 checked arithmetic within the 61-bit range, Rust f64, str ordering) is the specification",
             "operand values outside the enumerated lattices are not covered",
@@ -559,6 +559,31 @@ fn run(sh: &mut Shard) {
             }
         }
     }
+    // F1d the same chains over floats (floating-point addition and multiplication are not associative: nothing
+    // may be regrouped), x a local and a global
+    {
+        let xs: Vec<f64> = vec![0.1, 0.2, 0.3, 0.7, 1.0, 1.5, -0.1, 0.0, 1e16, 4503599627370496.0, 1e-16, 1e300, -1e300, 3.0, 1.0 / 3.0];
+        let cs: Vec<f64> = vec![0.1, 0.2, 0.3, 0.5, 0.7, 1.0, 1.5, 3.0, 1e16, 1e-16, -0.1, -1.0, 1e300, 2.0];
+        let chain_ops = [Operator::Add, Operator::Subtract, Operator::Multiply, Operator::Divide];
+        for x in &xs {
+            for c1 in &cs {
+                for c2 in &cs {
+                    for op1 in &chain_ops {
+                        for op2 in &chain_ops {
+                            let e = |xe: Expr| infix(infix(xe, op1.clone(), float_expr(*c1)), op2.clone(), float_expr(*c2));
+                            run_case(sh, "float-chain", &[es(call(func("", &["x"], vec![es(e(id("x")))]), vec![float_expr(*x)]))]);
+                            run_case(sh, "float-chain", &[let_("x", float_expr(*x)), es(e(id("x")))]);
+                            run_case(
+                                sh,
+                                "float-chain",
+                                &[es(call(func("", &["x"], vec![es(infix(infix(float_expr(*c1), op1.clone(), id("x")), op2.clone(), float_expr(*c2)))]), vec![float_expr(*x)]))],
+                            );
+                        }
+                    }
+                }
+            }
+        }
+    }
     // F1 the integer lattice, four forms
     let lat = lattice(tier, seed);
     for a in &lat {
@@ -617,7 +642,7 @@ fn replay(sh: &mut Shard, case: &Value) {
 }
 
 fn vacuity(m: &Merged) -> Option<String> {
-    for fam in ["int-literal", "int-var-lit", "int-lit-var", "int-var-var", "int-ordinary", "int-float", "int-chain", "float", "string", "string-long", "float-neighbours", "negated-comparison", "cross-type", "bool-table", "axioms"] {
+    for fam in ["int-literal", "int-var-lit", "int-lit-var", "int-var-var", "int-ordinary", "int-float", "int-chain", "float-chain", "float", "string", "string-long", "float-neighbours", "negated-comparison", "cross-type", "bool-table", "axioms"] {
         if m.counters.get(&format!("family:{fam}")).copied().unwrap_or(0) == 0 {
             return Some(format!("family {fam} produced no case"));
         }
